@@ -122,12 +122,14 @@ static uint8_t G_ubuf[UB + 1];
 static union { uint8_t b[MAXDS + 4]; uint32_t align; } G_vm[6];   /* variable storage: data_size bytes, then canaries */
 static const char *NL0, *NL1;                                      /* "\r\n" and "\n" as get_new_line_chars returns them */
 
+static int bad_handler_args;
 static void world_reset(void)
 {
         WORLD_ZERO(W);
         WORLD_ZERO(G_buf);
         WORLD_ZERO(G_ubuf);
         WORLD_ZERO(G_vm);
+        bad_handler_args = 0;
 }
 
 static int32_t s32(const unsigned char *b) { return (int32_t)vf_u32(b); }
@@ -197,8 +199,16 @@ static cat_return_state env_code(void)
         W.hcalls++;
         return (cat_return_state)r;
 }
+static size_t cap_c(void);
+static size_t cap_u(void);
+static uint8_t *ubuf_ptr(void);
 static void env_rewrite(uint8_t *data, size_t *data_size, size_t max)
 {
+        /* C06: a read/test handler is given the buffer of the machine that calls it, that machine's cursor and the TRUE
+         * capacity of that buffer (shared half or separate event buffer) */
+        if (!((data == G_buf && max == cap_c() && data_size == &W.at.position) ||
+              (data == ubuf_ptr() && max == cap_u() && data_size == &W.at.unsolicited_fsm.position)))
+                bad_handler_args = 1;
         /* contract: a read/test handler may rewrite data[0..max) and *data_size but leaves a NUL inside */
         size_t i;
         if (S.hmod && max > 0) {
@@ -621,6 +631,9 @@ static void scen_run(void)
                         if (i < cc)
                                 CHK(C03, G_buf[i] == SNAP_buf[i], "command buffer modified by a state that does not own it");
         }
+
+        /* ---- C06: handler arguments ----------------------------------------------------------------- */
+        CHK(C06, !bad_handler_args, "a read/test handler was given the wrong buffer, cursor or capacity");
 
         /* ---- C08: read-only variables ---------------------------------------------------------- */
         for (i = 0; i < 6; i++)
